@@ -140,7 +140,8 @@ class PressureCoordinates:
   centers: np.ndarray
 
   def __init__(self, centers: Union[Sequence[float], np.ndarray]):
-    object.__setattr__(self, 'centers', np.asarray(centers))
+    # attributes read back from NetCDF files store one-element lists as scalars
+    object.__setattr__(self, 'centers', np.atleast_1d(np.asarray(centers)))
     if not all(np.diff(self.centers) > 0):
       raise ValueError(
           'Expected `centers` to be monotonically increasing, '
